@@ -1,6 +1,7 @@
 import VerylModel.Driver.Store
 import VerylModel.Driver.CombLoop
 import VerylModel.Driver.Pretty
+import VerylModel.Driver.Fmt
 import VerylModel.Driver.IdCodec
 import VerylModel.Driver.Register
 import VerylModel.Driver.TokenPos
@@ -21,12 +22,16 @@ import VerylModel.Driver.Crash
 import VerylModel.Driver.Wide
 import VerylModel.Driver.ExprRef
 import VerylModel.Driver.Aig
+import VerylModel.Driver.Netlist
 
 def main (args : List String) : IO UInt32 := do
   match args with
   | ["store"] => VerylModel.Driver.Store.run; return 0
   | ["combloop"] => VerylModel.Driver.CombLoop.run; return 0
   | ["pretty"] => VerylModel.Driver.Pretty.run; return 0
+  | ["fmt"] => VerylModel.Driver.Fmt.run; return 0
+  | ["smap"] => VerylModel.Driver.Fmt.run; return 0
+  | ["emitopts"] => VerylModel.Driver.Fmt.run; return 0
   | ["fragment"] => VerylModel.Driver.IdCodec.run; return 0
   | ["order"] => VerylModel.Driver.Register.run; return 0
   | ["tokens"] => VerylModel.Driver.TokenPos.run; return 0
@@ -53,4 +58,5 @@ def main (args : List String) : IO UInt32 := do
   | ["lib"] => VerylModel.Driver.Aig.runNpn; return 0
   | ["aig"] => VerylModel.Driver.Aig.runAig; return 0
   | ["rewrite"] => VerylModel.Driver.Aig.runRewrite; return 0
+  | ["netlist"] => VerylModel.Driver.Netlist.run; return 0
   | _ => IO.eprintln s!"vmodel: unknown domain {args}"; return 2
